@@ -5,7 +5,7 @@
 SRC="$1"; PROP="$2"; WT="$3"
 set -e
 cd "$WT" && git checkout -q -- . && git apply "$SRC/patch.diff"
-B=$(/venv/bin/python /tmp/seedtools/baseline_check.py "$WT" 2>/dev/null | head -1)
+B=$(/venv/bin/python /verif/tools/baseline_check.py "$WT" 2>/dev/null | head -1)
 cp "$SRC/demo.py" "$WT/demo.py"
 set +e
 PYTHONPATH="$WT" timeout 600 /venv/bin/python demo.py > /tmp/demo_with.txt 2>&1; WITH=$?
